@@ -771,7 +771,7 @@ func init() {
 		Rule: "per operator (string operators with literal and %{TX.x} arguments, @eq/@ge/@gt/@le/@lt, @pm/@pmFromFile/@pmf/@pmFromDataset, @ipMatch and its file/data-set forms, @validateByteRange, @validateUrlEncoding, @validateUtf8Encoding, @rx incl. a byte-escape sub-language and an anchored / case-insensitive literal sub-population, with the prefilter off and on) an instance is built by the real factory from a generated structured argument (phrase lists 1-40 with shared prefixes, duplicates and non-ASCII/invalid UTF-8 bytes, CIDR lists v4/v6 with and without prefix length, byte ranges touching 0 and 255, patterns with up to 12 groups; data files and SecDataset blocks written in 27 styles: no/some/all lines padded with blanks and tabs, LF/CRLF/mixed, with/without/several final line ends, blank-only and comment lines, entries listed twice or in another case) and evaluated on inputs derived from the argument (phrase at start/end, near misses, the length boundary of the shortest phrase: equal, one byte shorter, one byte longer, one bit off; texts equal to the argument only under Unicode simple folding such as k/U+212A, s/U+017F and letters whose case forms differ in encoded length; range edges, %XX and UTF-8 sequences truncated at every offset) against a real transaction state; result and TX.0-9 are compared with naive definitions; about one instance in six is also run through single-rule WAFs (@op / !@op pair, or deny with optional '!'). A case (operator, argument, input) is non-trivial when it was judged and its instance produced both outcomes on its inputs; distinct by hash of (operator, argument, input).",
 		Assumptions: []string{
 			"trusted base: Go's regexp with the (?sm) prefix rx.go documents as this build's default (for @rx and its submatches), net/netip for address parsing, the hand-written definitions in internal/props/c15_naive.go",
-			"not judged (evaluated for panics only, counted as ambiguous_skipped): numeric operators on text that is not a canonical decimal integer within 64 bits, zoned or IPv4-mapped addresses, @validateNid",
+			"not judged (evaluated for panics only, counted as ambiguous_skipped): numeric operators on text that is not a digits-only decimal integer (optional minus, leading zeros allowed) within 64 bits, zoned or IPv4-mapped addresses, @validateNid",
 			"data files and SecDataset blocks: the entry of a line is the line without its line end and without leading/trailing blanks and tabs; lines that are empty after that are ignored; a line whose first byte is '#' is a comment (indented '#' lines are not generated); in the direct form a data set is the list of strings handed to the factory",
 			"SecRxPreFilter does not change the documented predicate of @rx (C11 states this); the stage counters read through verifapi.RxStage are evidence only",
 			"not generated: data-file lines of 64 KiB or more, empty @pm phrases (double blanks), '|' inside @pm phrases (Snort syntax), empty @validateByteRange argument or descending ranges, CIDR list entries the constructor would skip, @rx byte escapes whose decoded form is valid UTF-8",
